@@ -183,3 +183,10 @@ package btccurve
 //@   loop 1.1 invariant mathint(byte) == (mathint(k[_i1])*p2(bitNum)) % 256
 //@   loop 1.1 invariant implies(!seenFirstTrue, pre(k, _i1) == 0 && mathint(k[_i1])/p2(8-bitNum) == 0 && *x == *Bx && *y == *By && *z == *Bz)
 //@   loop 1.1 invariant implies(seenFirstTrue, jp(*x, *y, *z) == gmul(pre(k, _i1)*p2(bitNum) + mathint(k[_i1])/p2(8-bitNum), jaff(*Bx, *By)))
+
+//@ func (curve koblitzCurve) ScalarBaseMult(k []byte) (xr *big.Int, yr *big.Int)
+//@   variant group
+//@   theory secpgroup
+//@   requires curve.Gx != nil && curve.Gy != nil
+//@   ensures  xr != nil && yr != nil && jaff(*xr, *yr) == gmul(pre(k, len(k)), jaff(old(*curve.Gx), old(*curve.Gy)))
+//@   noframe
